@@ -40,34 +40,34 @@ def model_check(ctx, quick):
     inv = ["NoSelfOverlap", "NoEarlyStart", "NothingLost", "NoStartAfterCancel", "NoEarlyOvertime"]
     runs = [consts(2, 3, 10, 3), consts(2, 3, 10, 3, rep=1)] if quick else \
         [consts(2, 3, 10, 4), consts(2, 3, 2, 3), consts(3, 2, 10, 3), consts(2, 4, 10, 3, rep=2), consts(2, 3, 2, 4, rep=1)]
-    for c in runs:
-        ctx.tlc("TasksImpl", cfg_text=vlib.cfg_text(constants=c, invariants=inv, view="View"), timeout=3000)
+    # (key, constants, invariants, must hold)
+    jobs = [("hold%d" % i, c, inv, True) for i, c in enumerate(runs)]
     # model-level reproduction of the recorded findings (informational: never a verdict)
-    info = {}
-    r = ctx.tlc("TasksImpl", cfg_text=vlib.cfg_text(constants=consts(2, 3, 10, 3, due=False, atomic=False), invariants=["NoEarlyStart"],
-                                                    view="View"), timeout=1500, want_ok=False, count=False)
-    info["pinned_tree_schedule_handler_without_due_check"] = r.violated or "holds"
-    CEX["cex-nodue"] = (cex_steps(r), 10)
-    r = ctx.tlc("TasksImpl", cfg_text=vlib.cfg_text(constants=consts(2, 3, 2, 3), invariants=["NoLostSubmission"],
-                                                    view="View"), timeout=1500, want_ok=False, count=False)
-    info["requeue_while_running_past_max_delay"] = r.violated or "holds"
-    CEX["cex-lost"] = (cex_steps(r), 2)
-    r = ctx.tlc("TasksImpl", cfg_text=vlib.cfg_text(constants=consts(2, 3, 10, 3, atomic=False), invariants=["NoEarlyStart"],
-                                                    view="View"), timeout=1500, want_ok=False, count=False)
-    info["stale_handler_decision_windows"] = r.violated or "holds"
-    CEX["cex-stale"] = (cex_steps(r), 10)
-    r = ctx.tlc("TasksImpl", cfg_text=vlib.cfg_text(constants=consts(2, 3, 10, 3, reset=False), invariants=["NoEarlyStart"],
-                                                    view="View"), timeout=1500, want_ok=False, count=False)
-    info["executeAt_cleared_without_lock"] = r.violated or "holds"
-    CEX["cex-reset"] = (cex_steps(r), 10)
+    jobs += [("cex-nodue", consts(2, 3, 10, 3, due=False, atomic=False), ["NoEarlyStart"], False),
+             ("cex-lost", consts(2, 3, 2, 3), ["NoLostSubmission"], False),
+             ("cex-stale", consts(2, 3, 10, 3, atomic=False), ["NoEarlyStart"], False),
+             ("cex-reset", consts(2, 3, 10, 3, reset=False), ["NoEarlyStart"], False)]
     # plausible regressions modelled as fault variants: their counterexamples are adversarial scripts that the
     # unchanged code passes and a tree with that regression fails
-    for fault, invariant, md in (("cancelctx", "NoStartAfterCancel", 10), ("overtimenodue", "NoEarlyOvertime", 10),
-                                 ("lateexecuting", "NoSelfOverlap", 2)):
-        r = ctx.tlc("TasksImpl", cfg_text=vlib.cfg_text(constants=consts(2, 3, md, 4, atomic=(fault != "lateexecuting"), fault=fault),
-                                                        invariants=[invariant], view="View"), timeout=1500, want_ok=False, count=False)
-        info["fault_variant_" + fault] = r.violated or "holds"
-        CEX["cex-" + fault] = (cex_steps(r), md)
+    faults = (("cancelctx", "NoStartAfterCancel", 10), ("overtimenodue", "NoEarlyOvertime", 10), ("lateexecuting", "NoSelfOverlap", 2))
+    for fault, invariant, md in faults:
+        jobs.append(("cex-" + fault, consts(2, 3, md, 4, atomic=(fault != "lateexecuting"), fault=fault), [invariant], False))
+
+    def job(j):
+        key, c, invs, must = j
+        if must:
+            return key, ctx.tlc("TasksImpl", cfg_text=vlib.cfg_text(constants=c, invariants=invs, view="View"), timeout=3000, workers=4)
+        return key, ctx.tlc("TasksImpl", cfg_text=vlib.cfg_text(constants=c, invariants=invs, view="View"), timeout=1500,
+                            want_ok=False, count=False, workers=4)
+    res = dict(ctx.pmap(job, jobs, par=4))
+    names = {"cex-nodue": "pinned_tree_schedule_handler_without_due_check", "cex-lost": "requeue_while_running_past_max_delay",
+             "cex-stale": "stale_handler_decision_windows", "cex-reset": "executeAt_cleared_without_lock"}
+    mds = {"cex-lost": 2, "cex-lateexecuting": 2}
+    info = {}
+    for key, r in res.items():
+        if key.startswith("cex-"):
+            info[names.get(key, "fault_variant_" + key[4:])] = r.violated or "holds"
+            CEX[key] = (cex_steps(r), mds.get(key, 10))
     return info
 
 
